@@ -52,6 +52,7 @@ class Truth:
         self.kink = math.inf  # distance to the nearest abs/sign kink or branch boundary
         self.memo = {}
         self.branches = []
+        self.lazy = False  # an if_else whose UNSELECTED branch is undefined at this point was met
 
     def note(self, x):
         if not math.isfinite(x) or abs(x) > 1e6:
@@ -162,10 +163,16 @@ class Truth:
             return Dual(1.0 if lo <= b.v <= hi else 0.0)
         if tag == "ite":
             c = self.ev(t[1])
-            # both branches must be defined: the symbolic derivative and Python's evaluate() compute both
-            a, b = self.ev(t[2]), self.ev(t[3])
+            # the value (and the derivative) of an if/else is that of the SELECTED branch; the other branch may be undefined
+            # at this point (that is what if/else is written for): then the term is still inside its domain of definition
+            sel, uns = (t[2], t[3]) if c.v == 1.0 else (t[3], t[2])
+            a = self.ev(sel)
+            try:
+                self.ev(uns)
+            except (Domain, OverflowError, ZeroDivisionError, ValueError):
+                self.lazy = True
             self.branches.append(c.v == 1.0)
-            return a if c.v == 1.0 else b
+            return a
         if tag == "cond":  # ConditionalExpression: [(cond, expr)..., (None, final)]
             res = None
             for i, (c, e) in enumerate(t[1]):
@@ -337,7 +344,28 @@ class Gen:
             if op == "tan":
                 return ("un", "tan", self.bounded(depth, shared))
             return ("un", op, self.term(depth - 1, shared))
+        if rng.random() < 0.5:
+            return self.guarded(depth, shared)
         return ("ite", self.cond(depth, shared), self.term(depth - 1, shared), self.term(depth - 1, shared))
+
+    def guarded(self, depth, shared):
+        """an if/else that GUARDS a partial function: the branch that is not selected is undefined (NaN/inf in floating
+        point) on part of the value range -- signed square root, guarded log / reciprocal root / asin / real power"""
+        rng = self.rng
+        i, j = rng.randrange(NV), rng.randrange(NV)
+        b = rng.choice([("var", i), ("bin", "sub", ("var", i), ("param", rng.randrange(NP))), ("bin", "add", ("var", i), ("var", j))])
+        c = rng.choice([("param", rng.randrange(NP)), ("num", rng.choice([0.6, 1.5, 2.0]))])
+        kind = rng.choice(["ssqrt", "ssqrt", "log", "rsqrt", "asin", "pow15"])
+        if kind == "ssqrt":
+            return ("ite", ("ineq", b, 0.0, None), ("bin", "mul", c, ("bin", "pow", b, ("num", 0.5))),
+                    ("un", "neg", ("bin", "mul", c, ("bin", "pow", ("un", "neg", b), ("num", 0.5)))))
+        if kind == "log":
+            return ("ite", ("ineq", b, 0.25, None), ("un", "log", b), ("bin", "sub", b, ("num", 1.625)))
+        if kind == "rsqrt":
+            return ("ite", ("ineq", b, 0.25, None), ("bin", "div", c, ("bin", "pow", b, ("num", 0.5))), ("bin", "sub", ("num", 2.0), b))
+        if kind == "asin":
+            return ("ite", ("ineq", b, -0.75, 0.75), ("un", rng.choice(["asin", "acos"]), b), ("bin", "mul", c, b))
+        return ("ite", ("ineq", b, 0.5, None), ("bin", "pow", b, ("num", 1.5)), ("bin", "mul", b, b))
 
     def conditional(self, depth, shared):
         n = self.rng.choice([1, 2, 2, 3])
@@ -524,6 +552,13 @@ def trees_equal(a, b, tol=1e-13):
             return float(p) == float(q)
         return trees_equal(a[1], b[1], tol) and beq(a[2], b[2]) and beq(a[3], b[3])
     return False
+
+
+def closen(a, b, scale=0.0, rel=1e-12):
+    """`close`, and NaN agrees with NaN (model and implementation both compute 0*NaN / sqrt(-1) in IEEE arithmetic)"""
+    if a is not None and b is not None and isinstance(a, float) and isinstance(b, float) and math.isnan(a) and math.isnan(b):
+        return True
+    return close(a, b, scale, rel)
 
 
 def close(a, b, scale=0.0, rel=1e-12):
@@ -842,7 +877,7 @@ class Run:
     def fail(self, key, what, i, **detail):
         self.raw.append({"key": key, "what": what, "op_index": i, "detail": detail})
 
-    def expr_request(self, cid, kind, expr, jvars):
+    def expr_request(self, cid, kind, expr, jvars, lazy=False):
         """E-level: one `expr` line + the real observations it is compared with"""
         E = self.E
         vs, ps, fs, ndx = leaf_order(expr)
@@ -850,7 +885,7 @@ class Run:
         if w is None:
             return None
         wire, nrep = w
-        meta = {"cid": cid, "kind": kind, "nrep": nrep, "jvars": jvars, "own": [self.refl.var_ix[id(v)] for v in vs]}
+        meta = {"cid": cid, "kind": kind, "nrep": nrep, "jvars": jvars, "own": [self.refl.var_ix[id(v)] for v in vs], "lazy": lazy}
         try:
             meta["rpn"] = [int(t) for t in expr.get_rpn(ndx)]
         except Exception as e:
@@ -884,7 +919,10 @@ class Run:
                     except Exception as e:
                         meta["sd_val"][v] = None
                     a = ad.get(obj, 0)
-                    meta["ad_val"][v] = float(a if type(a) in (int, float) else a.value)
+                    try:
+                        meta["ad_val"][v] = float(a if type(a) in (int, float) else a.value)
+                    except Exception:
+                        meta["ad_val"][v] = None  # complex / NaN through an undefined unselected branch
                     if type(j) not in (int, float) and not j.is_leaf():
                         _, _, _, jn = leaf_order(j)
                         try:
@@ -992,11 +1030,17 @@ class Run:
                "floats": [self.refl.fid(f) for f in fs], "float_objs": fs, "obj": obj}
         self.live[cid] = rec
         brs = []
+        try:
+            lazy = self.truth(term)[1].lazy
+        except (Domain, OverflowError, ZeroDivisionError, ValueError):
+            lazy = True
+        if lazy:
+            self.count("add_with_undefined_unselected_branch")
         for c, x in branches:
-            cl = None if c is None or c.is_leaf() else self.expr_request(cid, "cond", c, [])
+            cl = None if c is None or c.is_leaf() else self.expr_request(cid, "cond", c, [], lazy)
             ctree = self.refl.tree(c) if c is not None else ("const", Fraction(1))
             jv = [v for v in vix]
-            xl = None if x.is_leaf() else self.expr_request(cid, "fn", x, jv)
+            xl = None if x.is_leaf() else self.expr_request(cid, "fn", x, jv, lazy)
             brs.append({"cond_tree": ctree, "cond_line": cl, "fn_tree": self.refl.tree(x), "fn_line": xl,
                         "leaf_var": self.refl.var_ix.get(id(x)) if x.is_leaf() else None})
         self.mops.append(("add", cid, conditional, int(con._c_obj.this),
@@ -1174,6 +1218,15 @@ class Run:
                         self.fail("jacobian-missing-variable", "constraint depends on a variable without a C object", i, cid=c, var=k)
                     continue
                 got = entries.get(o["vidx"][k], 0.0)
+                if tr.lazy and isinstance(got, float) and math.isnan(got) and math.isfinite(r[row]):
+                    # reverse_sd multiplies the partial derivative of the UNSELECTED branch (NaN/inf here) by
+                    # if_else(cond, 0, der): 0 * NaN = NaN in IEEE arithmetic, although the residual is the selected branch
+                    self.fail("jacobian-nan-unselected-branch",
+                              "Jacobian entry of constraint %d w.r.t. var %d is NaN (true %r): an if_else whose unselected branch is "
+                              "undefined at this point; the residual %r is right" % (c, k, tv, r[row]),
+                              i, cid=c, var=k, observed="nan", expected=tv, term=rec["term"],
+                              values={"vars": list(self.vv), "params": list(self.pv)})
+                    continue
                 if not close(got, tv, scale, 1e-9):
                     if self.abs_kink(rec["term"]):
                         self.count("jacobian_skipped_at_abs_kink")
@@ -1186,7 +1239,7 @@ class Run:
                 import numpy as np
                 import scipy.sparse as sp
                 ref = sp.csr_matrix((np.array(vals), np.array(cols), np.array(rows)), shape=(ncon, ncon))
-                if abs(J - ref).sum() != 0:
+                if not np.array_equal(J.toarray(), ref.toarray(), equal_nan=True):
                     self.fail("evaluate_jacobian-differs", "Model.evaluate_jacobian() differs from evaluate_csr_jacobian", i)
                 self.count("square_jacobian")
             except Exception as e:
@@ -1343,6 +1396,23 @@ def compare_expr(run, meta, f, broken, tag):
 
     lean_rpn = None if f.get("rpn") in (None, "none") else [int(x) for x in f["rpn"].split(",") if x]
     lean_rpnA = None if f.get("rpnA") in (None, "none") else [int(x) for x in f["rpnA"].split(",") if x]
+    if meta.get("lazy"):
+        # some if/else of this expression has an unselected branch that is undefined at the current point: Python's eager
+        # evaluate()/reverse_ad() may raise or go complex there and Lean's Float gives NaN -- only the structure is compared
+        run.count("expr_structure_only(undefined unselected branch)")
+        if "rpn_exc" in meta:
+            run.fail("python-layer-exception", "get_rpn of a valid expression raised: %s" % meta["rpn_exc"], -1, cid=meta["cid"])
+            return
+        if f.get("wf") != "true":
+            brk("well-formedness", "reflected operator list is not well formed (operand used before it is defined)")
+            return
+        if lean_rpn != meta["rpn"]:
+            brk("get_rpn", "real get_rpn %s\nLean getRpn %s" % (meta["rpn"], lean_rpn))
+        toks = f.get("tree", "none").split()
+        lt = parse_tree(toks)[0] if toks and toks[0] != "none" else None
+        if lt is None or not trees_equal(lt, meta["tree"], 0.0):
+            brk("denote", "tree of the reflected operator list differs from amldump's tree of the object")
+        return
     if "rpn_exc" in meta or "ev_exc" in meta or "sd_exc" in meta:
         run.fail("python-layer-exception", "get_rpn/evaluate/reverse_sd of a valid expression raised: %s" % (
             meta.get("rpn_exc") or meta.get("ev_exc") or meta.get("sd_exc")), -1, cid=meta["cid"])
@@ -1431,9 +1501,9 @@ def compare_model(run, outs, broken, tag):
             brk("var.index", "implementation %s, Lean %s" % (o["vidx"], f["vidx"]))
         if jc != cols or jr != rows:
             brk("CSR structure", "implementation col=%s row=%s, Lean col=%s row=%s" % (cols, rows, jc, jr))
-        elif len(jv) != len(vals) or any(not close(a, b, scale, 1e-10) for a, b in zip(jv, vals)):
+        elif len(jv) != len(vals) or any(not closen(a, b, scale, 1e-10) for a, b in zip(jv, vals)):
             brk("CSR values", "implementation %s, Lean %s" % (vals, jv))
-        if len(res) != len(o["res"]) or any(not close(a, b, scale, 1e-10) for a, b in zip(res, o["res"])):
+        if len(res) != len(o["res"]) or any(not closen(a, b, scale, 1e-10) for a, b in zip(res, o["res"])):
             brk("residuals", "implementation %s, Lean %s" % (o["res"], res))
         if ints(f["rc"]) != o["rc"]:
             brk("_refcounts", "implementation %s, Lean %s" % (o["rc"], f["rc"]))
@@ -1701,7 +1771,9 @@ class C15(Check):
         "(IfElse) constraints (condition_ndx/jac_ndx strides are modelled and compared with the C++ on every run only); that the leaves vector of a "
         "registered constraint resolves to the right C objects (address injectivity) is a hypothesis of row_entries_are_eval_and_derivative; D is connected to "
         "Mathlib's analytic derivative for the polynomial/rational fragment only; reverseSd_is_derivative has the domain side condition sdDomAll "
-        "(no power whose base folded to the native number 0; native if_else conditions are 0/1)",
+        "(no power whose base folded to the native number 0; native if_else conditions are 0/1); NaN/inf are outside the field model: the IF_ELSE opcode is proved "
+        "lazy in the unselected VALUE (ifElse_opcode_lazy, evalRpn_ifElse_lazy) but 0*NaN in the reverse_sd Jacobian of an if_else with an undefined "
+        "unselected branch is only seen by the oracle (known finding jacobian-nan-unselected-branch)",
         technique="Lean 4 proofs over hand models + differential runs against the Lean driver + independent oracle on the implementation",
     )
     rule = (
@@ -1717,6 +1789,9 @@ class C15(Check):
         "values stay inside the domain of definition with a margin (denominators/log arguments >= 0.05, |asin/acos argument| <= 0.9, |cos| >= 0.2 under tan, magnitudes <= 1e6)",
         "at an abs/sign kink the Jacobian is not judged; at a branch boundary the closed side is the selected branch",
         "a conditional constraint always has a final (else) expression",
+        "an if_else is inside its domain of definition where its condition and its SELECTED branch are; the unselected branch may be "
+        "undefined there (a regular share of generated if_else nodes guard sqrt/log/real powers/asin that way): residuals are judged, "
+        "a NaN Jacobian entry at such a point is the recorded finding jacobian-nan-unselected-branch",
     ]
 
     def translate(self, ctx):
